@@ -249,5 +249,68 @@ theorem consistent_first_eq_last {cfgs : List Cfg} (hc : Consistent cfgs) (n : N
     rw [← hn]
     exact (hc c hm).symm
 
+
+/-! ### the repaired add loop (`cfg = proxyCfgsMap[name]`) -/
+
+theorem lookupLast_some_of_mem {cfgs : List Cfg} {c : Cfg} (h : c ∈ cfgs) :
+    ∃ c', lookupLast cfgs c.name = some c' := by
+  cases hl : lookupLast cfgs c.name with
+  | some c' => exact ⟨c', rfl⟩
+  | none => exact absurd rfl (lookupLast_none hl c h)
+
+theorem sel_name (all : List Cfg) (c : Cfg) : (sel all c).name = c.name := by
+  unfold sel
+  split
+  · rename_i c' h; exact (lookupLast_mem h).2
+  · rfl
+
+/-- for an entry of the slice, `sel` is the map lookup -/
+theorem sel_spec {all : List Cfg} {c : Cfg} (h : c ∈ all) : lookupLast all c.name = some (sel all c) := by
+  obtain ⟨c', hc'⟩ := lookupLast_some_of_mem h
+  simp [sel, hc']
+
+theorem sel_mem {all : List Cfg} {c : Cfg} (h : c ∈ all) : sel all c ∈ all :=
+  (lookupLast_mem (sel_spec h)).1
+
+/-- the repaired loop is the old loop run on the slice with every entry replaced by the last
+    entry of its name -/
+theorem addLoopNew_eq (id now : Nat) (all : List Cfg) (cs : List Cfg) : ∀ (ws : List W),
+    addLoopNew id now all ws cs = addLoop id now ws (cs.map (sel all)) := by
+  induction cs with
+  | nil => intro ws; simp [addLoopNew, addLoop]
+  | cons c cs ih =>
+    intro ws
+    simp only [addLoopNew, List.map_cons, addLoop, sel_name]
+    split
+    · exact ih ws
+    · rw [ih]
+
+theorem map_sel_any (all cs : List Cfg) (n : Nat) :
+    (cs.map (sel all)).any (fun c => c.name == n) = cs.any (fun c => c.name == n) := by
+  induction cs with
+  | nil => rfl
+  | cons c cs ih => simp [List.any_cons, sel_name, ih]
+
+/-- the first entry of a name in the replaced slice is the map entry of that name -/
+theorem map_sel_find (cfgs : List Cfg) (n : Nat) :
+    (cfgs.map (sel cfgs)).find? (fun c => c.name == n) = lookupLast cfgs n := by
+  rw [List.find?_map]
+  have hf : ((fun c => c.name == n) ∘ sel cfgs) = (fun c : Cfg => c.name == n) := by
+    funext c; simp [Function.comp, sel_name]
+  rw [hf]
+  cases h : cfgs.find? (fun c => c.name == n) with
+  | none =>
+    rw [List.find?_eq_none] at h
+    cases hl : lookupLast cfgs n with
+    | none => rfl
+    | some c =>
+      obtain ⟨hm, hn⟩ := lookupLast_mem hl
+      exact absurd (by simpa using hn) (h c hm)
+  | some c =>
+    have hm := List.mem_of_find?_eq_some h
+    have hn : c.name = n := by simpa using List.find?_some h
+    simp only [Option.map_some]
+    rw [← hn, sel_spec hm]
+
 end C19
 end Frp
